@@ -527,6 +527,26 @@ def rule_D7(ctx):
                 if not consumer:
                     r.finding(f["path"], "forwarded-outside-chain:" + label, loc(c),
                               "%s hands its own conditional_parent on to a child, but it never schedules conditional_items: a conditional below it registers its branch with a parent that does not build it, and the zero placeholder in the jump table is never patched" % label)
+        # the marker can also be handed on by assigning the field of a node built otherwise (`inner.conditional_parent = node.conditional_parent`),
+        # or by a struct literal / update
+        for n in walk(node):
+            src = None
+            if n.get("k") == "Assign" and peel(n["l"]).get("k") == "Field" and peel(n["l"]).get("name") == "conditional_parent":
+                src = n["r"]
+            elif n.get("k") == "Struct" and "BuildNode" in (n.get("def") or n.get("txt") or ""):
+                for fl in n.get("fields", []):
+                    if fl.get("name") == "conditional_parent":
+                        src = fl.get("e")
+            if src is None:
+                continue
+            fwd = any(x.get("k") == "Field" and x.get("name") == "conditional_parent" for x in walk(src)) or any(
+                isinstance(o, dict) and o.get("k") == "Field" and o.get("name") == "conditional_parent" for o in body.origins(src))
+            if fwd:
+                n_fwd += 1
+                r.examine((f["path"], label, loc(n)), True, {"context": label, "where": loc(n), "conditional_parent_from": ["forwarded (field store)"], "context_schedules_conditional_items": consumer})
+                if not consumer:
+                    r.finding(f["path"], "forwarded-outside-chain:" + label, loc(n),
+                              "%s hands its own conditional_parent on to a child (stored into the child's field at %s), but it never schedules conditional_items: a conditional below it registers its branch with a parent that does not build it, and the zero placeholder in the jump table is never patched" % (label, loc(n)))
     r.analysed["contexts_scheduling_conditional_items"] = consumers
     r.floor("constructions with a conditional parent", n_ctor, 2)
     r.floor("handlers scheduling conditional_items", len(consumers), 1)
